@@ -88,7 +88,7 @@ impl Property for P {
             1 => gen::width(),
         ];
         let normal = (text, width).prop_map(|(text, width)| Case { text, width });
-        let scaled = gen::scaled_text_and_width(gen::Mix::FULL, 1500)
+        let scaled = gen::scaled_text_and_width(gen::Mix::FULL, 4000)
             .prop_map(|(text, width)| Case { text, width });
         prop_oneof![66 => normal, 1 => scaled].boxed()
     }
